@@ -50,7 +50,7 @@ impl Prop for C11 {
         "C11"
     }
     fn rule(&self) -> String {
-        "single-edge graphs (directed/undirected, with/without self-loops), n in 0..=10, dense enough for triangles and squares, unweighted or positive dyadic weights, isolated and degree-1 nodes included; node_names = None or a generated non-empty subset (proper subsets whose members have neighbours outside arise in about half the cases); plus multi-edge and directed graphs for the refusal clauses. Oracles are dense-matrix definitions on the loop-free graph: triangle counts, 2T/(d(d-1)), Fagiolo's (A+A^T)^3 form, Onnela/Fagiolo weighted forms with cube roots of weights normalised by the largest weight (tolerance 1e-9), transitivity = 3 triangles / triples, generalized degree histogram, Lind squares coefficient; every coefficient in [0,1]; subset call = full call restricted to the subset; WrongMethod on multi-edge graphs and, for triangles/transitivity/generalized_degree, on directed graphs. Exhaustive block: all undirected graphs on <= 4 nodes and directed on <= 3, each with None and every non-empty subset mask < 8. Non-trivial = the graph has >= 1 triangle (or square) and the call uses a proper subset with an outside neighbour, or a self-loop is present; distinct = distinct serialised case. Name-type independence: for every graph of <= 12 nodes and one in eight up to 64 (34 for path-returning calls) the same calls are repeated with a user-defined node-name type (lossy Display, heavily colliding Hash, Ord unrelated to insertion order) and must give the same order-independent results as with String names (floats within 1e-9). One eligible case in four (a stored self-loop) is checked after clearing the public specs.self_loops flag on the live graph.".into()
+        "single-edge graphs (directed/undirected, with/without self-loops), n in 0..=10, dense enough for triangles and squares, unweighted or positive dyadic weights, isolated and degree-1 nodes included; node_names = None or a generated non-empty subset (proper subsets whose members have neighbours outside arise in about half the cases); plus multi-edge and directed graphs for the refusal clauses. Oracles are dense-matrix definitions on the loop-free graph: triangle counts, 2T/(d(d-1)), Fagiolo's (A+A^T)^3 form, Onnela/Fagiolo weighted forms with cube roots of weights normalised by the largest weight (tolerance 1e-9), transitivity = 3 triangles / triples, generalized degree histogram, Lind squares coefficient; every coefficient in [0,1]; subset call = full call restricted to the subset; WrongMethod on multi-edge graphs and, for triangles/transitivity/generalized_degree, on directed graphs. Exhaustive block: all undirected graphs on <= 4 nodes and directed on <= 3, each with None and every non-empty subset mask < 8. Non-trivial = the graph has >= 1 triangle (or square) and the call uses a proper subset with an outside neighbour, or a self-loop is present; distinct = distinct serialised case. Name-type independence: for every graph of <= 12 nodes and one in eight up to 64 (34 for path-returning calls) the same calls are repeated with a user-defined node-name type (lossy Display, heavily colliding Hash, Ord unrelated to insertion order) and must give the same order-independent results as with String names (floats within 1e-9). One eligible case in four (a stored self-loop) is checked after clearing the public specs.self_loops flag on the live graph. Round 9: weight modes of subnormal weights ((k+1) * 2^-1074..2^-1071) and of weights near the top of the range ((k+1) * 2^1000), on graphs whose edges all draw from the mode (ratios are ordinary numbers, reciprocals and products are not representable).".into()
     }
     fn assumptions(&self) -> Vec<String> {
         vec![
